@@ -59,25 +59,31 @@ pub assume_specification<T> [std::task::Poll::<T>::is_ready] (p: &std::task::Pol
 /// `Pin<Box<T>>::as_mut()` is `Box<T>::as_mut()` after R5b: a reborrow of the boxed value
 pub assume_specification<T, A> [<std::boxed::Box<T, A> as std::convert::AsMut<T>>::as_mut] (b: &mut std::boxed::Box<T, A>) -> (r: &mut T)
     where A: std::alloc::Allocator, T: std::marker::MetaSized + ?Sized,
-    ensures r == &**old(b), final(r) == &**final(b);
+    ensures &*r == &**old(b), &*final(r) == &**final(b);
 
 // ---- tokio::sync::oneshot::Receiver (struct + `id()` are in prelude/pool_guard.rs) ----
 /// stand-in for `tokio::sync::oneshot::error::RecvError`
 pub struct RecvError(pub ());
 
 impl<T> Receiver<T> {
-    /// prophecy: what the next `poll` of this receiver returns.  Tied to the sender side (prelude/pool.rs):
-    /// a value is only ever received if it was `delivered` on this channel.
+    /// prophecy: what the next `poll` of this receiver returns
     pub uninterp spec fn next(&self) -> std::task::Poll<Result<T, RecvError>>;
+    /// a `poll` has returned Ready (tokio panics with "called after complete" when polled again: the
+    /// precondition of `poll` is a proof obligation of every caller)
+    pub uninterp spec fn done(&self) -> bool;
     /// `close()` was called: no value can be sent any more
     pub uninterp spec fn closed(&self) -> bool;
 
-    /// A: `<Receiver<T> as Future>::poll`
+    /// A: `<Receiver<T> as Future>::poll`.  A value is only ever received if it was `delivered` on this
+    /// channel (sender side: prelude/pool.rs).
     #[verifier::external_body]
     pub fn poll(&mut self, cx: &mut std::task::Context<'_>) -> (r: std::task::Poll<Result<T, RecvError>>)
+        requires
+            !old(self).done(),
         ensures
             r == old(self).next(),
             final(self).id() == old(self).id(),
+            final(self).done() == (r is Ready),
             r matches std::task::Poll::Ready(Ok(v)) ==> delivered::<T>(old(self).id()) == Some(v),
     { unimplemented!() }
 
@@ -86,6 +92,7 @@ impl<T> Receiver<T> {
     pub fn close(&mut self)
         ensures
             final(self).id() == old(self).id(),
+            final(self).done() == old(self).done(),
             final(self).closed(),
     { unimplemented!() }
 }
